@@ -244,3 +244,124 @@ join_harness_np! {
         }
     }
 }
+
+// ---- C01 H1, thread joiner: completion vs join at any atomic step, both root assignments --------
+// (the coroutine-joiner variant above is inconclusive; with a plain-thread joiner the Blocker is
+// the ThreadPark token model and no Park / cancel code is involved)
+static mut TJ_TOKEN: *mut usize = std::ptr::null_mut();
+static mut TJ_PARKED: bool = false;
+static mut TJ_NESTED: bool = false; // the joiner's wait() runs nested inside trigger()
+fn tj_is_coroutine_false() -> bool {
+    false
+}
+fn tj_unpark(b: &Blocker) {
+    np::point();
+    unsafe { *crate::sync::mpsc::verif_kani::blocker_token_pub(b) = 1 };
+}
+fn tj_park(b: &Blocker, _t: Option<Duration>) -> std::result::Result<(), crate::park::ParkError> {
+    np::point();
+    let tok = crate::sync::mpsc::verif_kani::blocker_token_pub(b);
+    unsafe {
+        TJ_TOKEN = tok;
+        if *tok != 0 {
+            *tok = 0;
+            return Ok(());
+        }
+        TJ_PARKED = true;
+        if TJ_NESTED {
+            // Join::wait does nothing after park returns, so a joiner that has to stay parked can
+            // be represented by returning here; whether it is ever woken is judged by the root
+            // once trigger() has completed (the token must have been set by then)
+            return Ok(());
+        }
+        if TRIGGER_LEFT {
+            run_trigger();
+        }
+        assert!(*tok != 0, "C01: joiner parked for ever although the coroutine has finished (lost wake-up between register and re-check)");
+        *tok = 0;
+        Ok(())
+    }
+}
+fn hook_join_nested() {
+    unsafe {
+        if np::DEPTH == 0 && JOINER_LEFT && kani::any() {
+            JOINER_LEFT = false;
+            TJ_NESTED = true;
+            np::nested(|| (*JOIN).wait());
+            TJ_NESTED = false;
+        }
+    }
+}
+static mut JOINER_LEFT: bool = false;
+
+macro_rules! tj_harness {
+    ($(#[$m:meta])* fn $name:ident() $body:block) => {
+        #[kani::proof]
+        $(#[$m])*
+        #[kani::stub(core::sync::atomic::Atomic::<bool>::load, sa::bool_load)]
+        #[kani::stub(core::sync::atomic::Atomic::<bool>::store, sa::bool_store)]
+        #[kani::stub(crossbeam::atomic::AtomicCell::swap, rt::cell_swap)]
+        #[kani::stub(crossbeam::atomic::AtomicCell::store, rt::cell_store)]
+        #[kani::stub(crossbeam::atomic::AtomicCell::take, rt::cell_take)]
+        #[kani::stub(crate::coroutine_impl::is_coroutine, tj_is_coroutine_false)]
+        #[kani::stub(crate::sync::blocking::Blocker::park, tj_park)]
+        #[kani::stub(crate::sync::blocking::Blocker::unpark, tj_unpark)]
+        #[kani::stub(stdpanic::catch_unwind, rt::catch_unwind_stub)]
+        #[kani::stub(stdpanic::take_hook, rt::take_hook_stub)]
+        #[kani::stub(stdpanic::set_hook, rt::set_hook_stub)]
+        #[kani::stub(std::thread::panicking, np::panicking_stub)]
+        #[kani::stub(std::sync::Arc::drop_slow, rt::arc_drop_slow_stub)]
+        fn $name() $body
+    };
+}
+/// root = the joiner's wait(); the coroutine's completion (real Join::trigger) at any atomic step
+tj_harness! {
+    #[kani::unwind(3)]
+    fn c01_thread_join_wait_vs_trigger_d1() {
+        let join: &'static Join = Box::leak(Box::new(Join::new(Arc::new(AtomicOption::none()))));
+        unsafe {
+            JOIN = join;
+            TRIGGER_LEFT = true;
+            np::HOOK = Some(hook_trigger);
+        }
+        join.wait();
+        unsafe {
+            np::HOOK = None;
+            assert!(CHILD_DONE && !TRIGGER_LEFT, "C01: wait() returned before the coroutine finished");
+            assert!(!*join.state.as_ptr());
+            kani::cover!(TJ_PARKED, "joiner parked and was woken by the completion");
+            kani::cover!(!TJ_PARKED && np::PREEMPTS > 0, "completion landed inside wait(): no parking needed");
+        }
+    }
+}
+/// root = the coroutine's completion (real Join::trigger); the joiner's whole wait() - register,
+/// re-check, park - lands at any atomic step of it (or after it)
+tj_harness! {
+    #[kani::unwind(3)]
+    fn c01_trigger_vs_registering_thread_joiner_d1() {
+        let join: &'static Join = Box::leak(Box::new(Join::new(Arc::new(AtomicOption::none()))));
+        unsafe {
+            JOIN = join;
+            JOINER_LEFT = true;
+            np::HOOK = Some(hook_join_nested);
+            CHILD_DONE = true;
+        }
+        join.trigger();
+        unsafe {
+            np::HOOK = None;
+            let inside = !JOINER_LEFT;
+            if TJ_PARKED {
+                // the joiner registered, saw "running" and parked inside trigger(): the completed
+                // trigger must have woken it
+                assert!(*TJ_TOKEN != 0, "C01: the coroutine has finished and the parked joiner was never woken (lost wake-up in Join::trigger)");
+            }
+            kani::cover!(inside && TJ_PARKED, "the joiner parked inside trigger() and was woken by it");
+            kani::cover!(inside && !TJ_PARKED, "the joiner saw the completion inside trigger() and did not park");
+            if JOINER_LEFT {
+                JOINER_LEFT = false;
+                join.wait();
+                assert!(!TJ_PARKED, "C01: a joiner arriving after completion had to park");
+            }
+        }
+    }
+}
